@@ -147,7 +147,7 @@ func C16(p *core.Program, r *core.Report) {
 	// all PageInfo.URL sources in the module
 	reviewedDoc := map[string]string{
 		"internal/pagination/parser.newDetectionStateFromMonotonicNumbers": "two-page documents: the current document's URL stands in for the plain number (the current page is filtered again in FindPagination, Q3)",
-		"(*internal/pagination/info.PageParamInfo).InsertFirstPage":         "inserts the current document as first page (filtered in FindPagination, Q3)",
+		"(*internal/pagination/info.PageParamInfo).InsertFirstPage":        "inserts the current document as first page (filtered in FindPagination, Q3)",
 	}
 	nSrc := 0
 	for _, fn := range p.ModFunctions(false) {
@@ -332,7 +332,9 @@ func C16(p *core.Program, r *core.Report) {
 		for _, ret := range core.Returns(pf) {
 			_ = ret
 		}
-		n := len(core.Calls(pf, func(ci ssa.CallInstruction) bool { return core.IsCallTo(ci, "(*"+paginationPkg+".PrevNextFinder).FindOutlink") }))
+		n := len(core.Calls(pf, func(ci ssa.CallInstruction) bool {
+			return core.IsCallTo(ci, "(*"+paginationPkg+".PrevNextFinder).FindOutlink")
+		}))
 		r.Add("Q3", "PrevNext results are FindOutlink results", p.Pos(pf.Pos()), n == 2, fmt.Sprintf("%d FindOutlink calls", n))
 	}
 }
